@@ -310,3 +310,17 @@ def run(ctx, rep):
     # updates of the look-ahead sit under the ticker guard (shared with C02-R6 / C09-R2)
     import rules.c02 as c02
     c02.same_security(R, rep, "R8")
+
+
+def controls(pctx, rep):
+    """the iterator chain feeding a loop must be read as guards of the loop body"""
+    F = pctx.F
+    try:
+        b = F.one("pipeline_guards")
+        tb = Terms(F, b, inline_depth=0)
+        site = next(i for i, t in b.calls() if parse_callee(t["callee"])[2] == "wrapping_add")
+        gs = [(c[1], w[1]) for c, v, w in guards_of(b, tb, site) if isinstance(w, tuple) and w[0] == "pipeline" and isinstance(c, tuple) and c[0] in ("bin", "cmp")]
+        rep.control("R3:pipeline", sorted(gs) == [("Eq", "filter"), ("Le", "take_while")],
+                    f"posctl::pipeline_guards yields pipeline guards {sorted(gs)} (expected Eq/filter and Le/take_while)")
+    except Exception as e:
+        rep.control("R3:pipeline", False, f"pipeline extraction failed on posctl::pipeline_guards: {e}")
